@@ -88,6 +88,12 @@ impl ZoneTwin {
         }
     }
     fn view(&self, n: usize) -> String {
+        match catch(|| self.view_raw(n)) {
+            Ok(v) => v,
+            Err(p) => format!("PANIC in a zone query: {p}"),
+        }
+    }
+    fn view_raw(&self, n: usize) -> String {
         let s = self.zone.stats();
         let t = self.zone.tree_stats();
         let mut per = String::new();
@@ -109,6 +115,13 @@ impl ZoneTwin {
 }
 
 fn plain_view(sut: &Sut, n: usize) -> String {
+    match catch(|| plain_view_raw(sut, n)) {
+        Ok(v) => v,
+        Err(p) => format!("PANIC in a query: {p}"),
+    }
+}
+
+fn plain_view_raw(sut: &Sut, n: usize) -> String {
     let a = &sut.alloc;
     let s = a.stats();
     let t = a.tree_stats();
